@@ -4,7 +4,6 @@ from .ops_c18 import OPS
 
 PROP, BIN, RUNMOD, RUNFN = "C18", "c18", "RunC18", "run_C18"
 MODES = [True, False]
-LEVEL = "other"   # until the premises (NumTraitsDeps) are discharged against the merged core theorems
 
 U32MAX = (1 << 32) - 1
 
